@@ -92,9 +92,9 @@ pub fn tree_listing() -> Vec<String> {
 pub fn capture<R>(f: impl FnOnce() -> R) -> (R, Vec<u8>) {
     use std::io::{Read, Seek, Write};
     use std::os::fd::{AsRawFd, FromRawFd};
-    let mut tmp = unsafe { std::fs::File::from_raw_fd(libc::memfd_create(c"cap".as_ptr(), 0)) };
+    let mut tmp = unsafe { std::fs::File::from_raw_fd(libc::memfd_create(c"cap".as_ptr(), libc::MFD_CLOEXEC)) };
     std::io::stdout().flush().unwrap();
-    let saved = unsafe { libc::dup(1) };
+    let saved = unsafe { libc::fcntl(1, libc::F_DUPFD_CLOEXEC, 3) };
     unsafe { libc::dup2(tmp.as_raw_fd(), 1) };
     let r = f();
     let _ = std::io::stdout().flush();
